@@ -52,6 +52,21 @@ def canon(listing):
   return sorted([list(e) for e in listing], key=lambda e: (KIND_ORDER.get(e[0], 9), e[1]))
 
 
+def obs(listing):
+  """Observation function of the experiment directory — what C09 fixes and nothing below it:
+  the files under FINAL checkpoint names (checkpoint_<8 digits>: complete? which state?) and the COMPLETE
+  final-evaluation outputs under their final names (<name>.tsv).  Temp files of any name, a `.tsv` that is
+  still being written (in place or under a staging name), left-over partial files and the order of the
+  file-system effects are the implementation's freedom (kept as diagnostics only)."""
+  return canon([e for e in listing if e[0] == 'ckpt' or (e[0] == 'tsv' and len(e) > 2 and e[2] == 'out')])
+
+
+def newest(listing):
+  """round of the numerically newest visible checkpoint (what a re-run resumes from), None if there is none"""
+  rs = [e[1] for e in listing if e[0] == 'ckpt']
+  return max(rs) if rs else None
+
+
 def frac_of(c, n):
   """smallest per-10000 fraction that maps back to index c among n+1 crash points."""
   f = -(-c * 10001 // (n + 1))
@@ -672,8 +687,9 @@ class C09(core.Property):
     rounds = self.rounds_of(res[1], w)
     if rounds != mstate:
       corr.append(f'{where}: re-run state rounds {rounds} vs model {mstate}')
-    if canon(mlisting) != final_listing:
-      corr.append(f'{where}: listing after the re-run {final_listing} vs model {canon(mlisting)}')
+    if obs(mlisting) != obs(final_listing):
+      corr.append(f'{where}: checkpoints and final-evaluation outputs after the re-run {obs(final_listing)} vs model '
+                  f'{obs(mlisting)}')
 
   @staticmethod
   def _round_start(events, k):
@@ -741,7 +757,7 @@ class C09(core.Property):
       listing, other, states = self.observe(d, w, junk)
       impl_trace.append(listing)
       if other:
-        corr.append(f'unexpected directory entries {other}')
+        pass    # sub-directories / other entries are diagnostics only
       if r1[0] == 'raise':
         corr.append(f'crash point {(c, p)}: the interrupted call raised {r1[1]} instead of reaching the crash point')
       pr = self.oracle_crashed_dir(d, cfg, w, junk, states)
@@ -772,8 +788,9 @@ class C09(core.Property):
       if trace == 'dies':
         corr.append('model: invocation from the empty directory dies')
       else:
-        mt = dedup([canon(l) for l in trace])
-        it = dedup(impl_trace)
+        # which checkpoint a re-run would resume from, along the crash points (stutter-equivalent)
+        mt = dedup([newest(l) for l in trace])
+        it = dedup([newest(l) for l in impl_trace])
         if lo:
           # the enumeration started late: the impl trace must be a suffix of the model trace
           ok = len(it) <= len(mt) and mt[len(mt) - len(it):] == it
@@ -781,12 +798,12 @@ class C09(core.Property):
           ok = mt == it
         if not ok:
           k = next((i for i, (a, b) in enumerate(zip(it, mt[len(mt) - len(it):] if lo else mt)) if a != b), min(len(it), len(mt)))
-          corr.append(f'directory traces differ at distinct state #{k}: impl {it[k] if k < len(it) else "<end>"} '
+          corr.append(f'newest visible checkpoint along the crash points differs at distinct state #{k}: impl {it[k] if k < len(it) else "<end>"} '
                       f'vs model {(mt[len(mt) - len(it):] if lo else mt)[k] if k < len(mt) else "<end>"} '
                       f'(impl {len(it)} states, model {len(mt)})')
-      uniq, ans = self._model_run(ctx, cfg, [x[0] for x in completions])
+      uniq, ans = self._model_run(ctx, cfg, [obs(x[0]) for x in completions])
       for listing, r2, final_listing, cp in completions:
-        self._compare_completed(r2, final_listing, cfg, w, ans[uniq.index(listing)], f'crash {cp}', corr)
+        self._compare_completed(r2, final_listing, cfg, w, ans[uniq.index(obs(listing))], f'crash {cp}', corr)
         if len(corr) > 3:
           break
     if not probs:
@@ -821,7 +838,7 @@ class C09(core.Property):
         fired = inj.fired
       listing, other, states = self.observe(d, w, junk)
       if other:
-        corr.append(f'unexpected directory entries {other}')
+        pass    # sub-directories / other entries are diagnostics only
       if any(e[0] in FS_KINDS for e in events[:c]) and fired:
         late = True
       pr = self.oracle_crashed_dir(d, cfg, w, junk, states)
@@ -842,11 +859,11 @@ class C09(core.Property):
         if trace == 'dies':
           corr.append(f'model: invocation {len(steps)} dies from {model_fs}')
           break
-        if listing not in [canon(l) for l in trace]:
-          corr.append(f'invocation {len(steps)}: directory {listing} after the crash is not a crash state of the model '
-                      f'from {model_fs}')
+        if newest(listing) not in [newest(l) for l in trace]:
+          corr.append(f'invocation {len(steps)}: newest visible checkpoint {newest(listing)} after the crash (visible: '
+                      f'{obs(listing)}) is not what a re-run could resume from at any crash point of the model from {model_fs}')
           break
-      model_fs = listing
+      model_fs = obs(listing)
       ctx.count('crash_points')
     saves = []
     r2 = self.invoke(d, cfg, Injector(), saves)
